@@ -583,6 +583,53 @@ def run_C06(ctx):
     repo_test_verdicts(ctx, doc=not ctx.quick)
 
 
+def tlaps_safety(ctx):
+    """Unbounded part of C05: TLAPS proves that the control-flow machine over an abstract program of
+    ANY length never gets stuck when the program is well formed (spec/SafetyAbs.tla, inductive
+    invariant); TLC checks on the MC_Safety universe that MachineCF over Verifier!WellFormed programs
+    refines it (MC_SafetyAbs).  Both with a negative control."""
+    import shutil, re
+    spec_src = open(os.path.join(core.SPEC, "SafetyAbs.tla")).read()
+    strong = '(Tgt[p] \\in 0..(N-1) /\\ Kind[Tgt[p]] # "second")'
+    assert strong in spec_src
+    for name, text in (("proof", spec_src), ("negctl", spec_src.replace(strong, "(Tgt[p] \\in 0..(N-1))"))):
+        if name == "negctl" and ctx.quick:
+            continue        # (failing obligations run into the provers' time-outs: thorough tier only)
+        wd = os.path.join(ctx.workdir, "tlaps-" + name)
+        shutil.rmtree(wd, ignore_errors=True)
+        os.makedirs(wd)
+        open(os.path.join(wd, "SafetyAbs.tla"), "w").write(text)
+        p = core.sh(["tlapm", "--threads", "6", "--cleanfp", "SafetyAbs.tla"], cwd=wd, timeout=1500, check=False)
+        m = re.search(r"All (\d+) obligations proved", p.stdout)
+        if name == "proof":
+            if m:
+                ctx.extra["tlaps"] = {"module": "SafetyAbs.tla", "theorem": "Spec => []NoStuck for a well-formed abstract program of any length (inductive invariant Inv)",
+                                      "obligations_proved": int(m.group(1))}
+            else:
+                f = re.search(r"(\d+)/(\d+) obligations failed", p.stdout)
+                if not f:
+                    raise ToolError("tlapm failed on SafetyAbs.tla:\n" + p.stdout[-2000:])
+                ctx.violation(f"TLAPS: {f.group(1)} of {f.group(2)} proof obligations of SafetyAbs.tla fail: the design-level argument that a well-formed program never gets stuck no longer holds",
+                              {"kind": "tlaps", "output": p.stdout[-3000:]})
+        elif m:
+            raise ToolError("negative control failed: SafetyAbs.tla is still proved when jumps may land on second slots")
+        shutil.rmtree(wd, ignore_errors=True)
+    if "tlaps" in ctx.extra and not ctx.quick:
+        ctx.extra["tlaps"]["negative_control"] = "with the rule 'a jump or call never lands on a second slot' removed, 3 obligations fail"
+    # the abstraction is faithful on the universe TLC can enumerate
+    maxlen = 3 if ctx.quick else 4
+    r = run_tlc(f"{ctx.prop}-safetyabs", "MC_SafetyAbs", {"MaxLen": maxlen, "Dev": set(), "Alphabet": "full", "EmitAll": False},
+                spec="SpecWF", invariants=["Safe"], properties=["Refines"], workers=8, timeout=1500)
+    if r.violation:
+        ctx.violation("MachineCF over a Verifier!WellFormed program does not refine SafetyAbs (the unbounded proof does not cover the specification's machine)",
+                      {"kind": "tlc", "output": r.violation[:3000]})
+    ctx.add_tlc(f"MC_SafetyAbs MaxLen={maxlen} (MachineCF refines SafetyAbs)", r)
+    rn = run_tlc(f"{ctx.prop}-safetyabs-neg", "MC_SafetyAbs", {"MaxLen": 2, "Dev": {"last_any_jmp"}, "Alphabet": "full", "EmitAll": False},
+                 spec="SpecWF", properties=["Refines"], workers=4, timeout=600, expect_violation=True)
+    if not rn.violation:
+        raise ToolError("negative control failed: with the pinned commit's last-instruction rule MachineCF still refines SafetyAbs")
+
+
 def run_C05(ctx):
     # design level: every program over the alphabet, all inputs (control-flow abstraction)
     maxlen = 3 if ctx.quick else 4
@@ -617,6 +664,7 @@ def run_C05(ctx):
     ctx.add_tlc("MC_Exec with PROPERTY CFRefinement", rr)
     # binding: every program of the universe through the real verifier and, if accepted, the real interpreter
     replay_verdicts(ctx, "universe", r.replay)
+    tlaps_safety(ctx)
     extra_C05(ctx)
 
 
